@@ -345,6 +345,13 @@ class BehavioralRTLIRToVVisitorL1( bir.BehavioralRTLIRNodeVisitor ):
 
     value = s.visit( node.value )
 
+    if isinstance( node.value, ( bir.IfExp, bir.UnaryOp, bir.BinOp, bir.Compare ) ):
+      # The msb of an expression cannot be selected with [msb]. Zero extend
+      # the expression instead, then flip and subtract its sign bit:
+      # ( ( x ^ m ) - m ) sign-extends x if m is the weight of x's msb.
+      sign = f"{target_nbits}'d{1 << last_bit}"
+      return f"( ( {{ {{ {padded_nbits} {{ 1'b0 }} }}, {value} }} ^ {sign} ) - {sign} )"
+
     template = "{{ {{ {padded_nbits} {{ {value}[{last_bit}] }} }}, {value} }}"
     one_bit_template = "{{ {{ {padded_nbits} {{ {_value} }} }}, {value} }}"
 
